@@ -5,7 +5,10 @@
 // directory symlinks) plus 25 | 400 random trees (VERIF_SEED; depth <= 3, 1..6 entries per directory,
 // file sizes {0,1,1000,262144,262145}); roots that are a single regular file and a single symlink;
 // in thorough a directory of 1300 entries with 200-character names (crosses the 256 KiB auto-shard
-// estimate); rejected inputs: a tree containing a fifo (at the root level and nested), and the
+// estimate); symlinks with targets of 1..4095 bytes in plain and nested directories and as the import
+// root, and BuildUnixFSSymlink called directly with targets of up to 70000 bytes (symlink_test.go:
+// "tree:symlink-len=<n>", "tree:symlink-all", "tree:symlink-root-len=<n>", "symlink-direct:len=<n>");
+// rejected inputs: a tree containing a fifo (at the root level and nested), and the
 // character device /dev/null.
 // The returned DAG is walked back through unixfsnode.Reify: every directory lists exactly the
 // created names, every file's bytes equal what was written, every symlink block is a UnixFS
@@ -239,6 +242,8 @@ func TestBounded(t *testing.T) {
 			verify(r, id, "", st, ls, l, e)
 		})
 	}
+
+	symlinkTrees(t, r, base)
 
 	// rejected inputs
 	reject := func(id, root string) {
